@@ -1200,6 +1200,39 @@ Plan generate(const std::string& mode, uint64_t seed, uint64_t run) {
       w.a.push_back(v);
       v = w;
     }
+    if (r.chance(1, 6)) {
+      // shapes on the header boundaries of both formats: 15/16/17 elements or members, strings of
+      // 31/32/33, 255/256/257 and (rarely) 65535/65536 bytes
+      static const size_t widths[] = {15, 16, 17, 31, 32};
+      static const size_t lens[] = {31, 32, 33, 63, 64, 255, 256, 257};
+      Val extra;
+      unsigned what = unsigned(r.below(3));
+      if (what == 0) {
+        extra = Val::arr();
+        size_t n = widths[r.below(5)];
+        for (size_t j = 0; j < n; j++)
+          extra.a.push_back(r.chance(1, 5) ? genScalar(r, go) : Val::integer(int64_t(j)));
+      } else if (what == 1) {
+        extra = Val::obj();
+        size_t n = widths[r.below(5)];
+        for (size_t j = 0; j < n; j++)
+          extra.o.emplace_back("m" + std::to_string(j), r.chance(1, 5) ? genScalar(r, go) : Val::boolean(j & 1));
+      } else {
+        size_t n = r.chance(1, 12) ? 65534 + size_t(r.below(4)) : lens[r.below(8)];
+        std::string str(n, 'y');
+        for (size_t j = 0; j < n; j += 61)
+          str[j] = char('A' + (j / 61) % 26);
+        extra = r.chance(1, 4) ? Val::obj() : Val::str(str);
+        if (extra.k == K::Obj)
+          extra.o.emplace_back(str, Val::integer(1));  // as a key
+      }
+      if (v.k == K::Arr)
+        v.a.push_back(extra);
+      else if (v.k == K::Obj && !v.member("edge"))
+        v.o.emplace_back("edge", extra);
+      else
+        v = extra;
+    }
     if (dup) {
       // a repeated key: the last occurrence wins, at the position of the first. Make sure there is one,
       // and that the kinds of the two values vary (null after a number, scalar after a container …)
